@@ -142,6 +142,18 @@ SZ = {'quick': (96, 100, 5, 500), 'thorough': (1600, 300, 4, 12000)}
 SZ_MOVES = {'quick': (64, 80, 1, 300), 'thorough': (1600, 300, 1, 8000)}
 
 
+def uci_glue_extra(pid, then=None):
+    """sessions over the engine's real UCI command loop (tools/uci_glue.py); reports what belongs to property pid"""
+    def f(ctx):
+        import uci_glue
+        n = uci_glue.run(ctx, pid, 10 if ctx.tier == 'quick' else 160)
+        ctx.cov['rule'] += (f'; plus {n} scripted sessions over the REAL UCI command loop (position…moves / moves / printboard / hash / perft / '
+                            'go depth·searchmoves·clock), judged against the rules specification (tools/uci_glue.py)')
+        if then:
+            then(ctx)
+    return f
+
+
 def perft_extra(depth_quick, depth_thorough):
     def f(ctx):
         fens = [l.strip() for l in open(CORPUS) if l.strip() and not l.startswith('#')]
@@ -161,14 +173,14 @@ def check_C01(ctx):
     return play_family(ctx, 'legal move set', moves_fields(['uci']), moves_fields(['uci']), SZ_MOVES,
                        'theorems in Props/C01.lean (see DESIGN §6 C01 for which part of the full statement is proved) + three-way differential '
                        'C++ / model / rules-spec on the sorted legal move set incl. duplicate count, and perft through do/undo',
-                       extra=perft_extra(2, 3), assumptions=['positions are Spec.wf (one-ply retro-legal)'])
+                       extra=uci_glue_extra('C01', perft_extra(2, 3)), assumptions=['positions are Spec.wf (one-ply retro-legal)'])
 
 
 def check_C02(ctx):
     return play_family(ctx, 'position after a move', state_fields(['fen', 'sync']), state_fields(['fen', 'sync']), SZ,
                        'theorems in Props/C02.lean + three-way differential on all six FEN fields after every do/undo/null, and the C++\'s three '
                        'redundant placements checked against each other at every step (sync)',
-                       assumptions=['Spec.wf positions', 'half-move clock < 256 (uint8_t)'])
+                       extra=uci_glue_extra('C02'), assumptions=['Spec.wf positions', 'half-move clock < 65535 (uint16_t after the clock fix)'])
 
 
 def check_C03(ctx):
@@ -223,7 +235,7 @@ def check_C04(ctx):
                        'SplitMix64 stream known to both sides: incremental key, pawn key, and the keys of a fresh Position(fen()) after every op; '
                        'the spec computes the key from scratch from (placement, side, rights, ep); plus a pass with the engine\'s own '
                        'tables: cells non-zero and pairwise distinct, key == fresh key, key functional and injective on the visited positions',
-                       extra=real_tables_extra, assumptions=['64-bit collisions are outside the property'])
+                       extra=uci_glue_extra('C04', real_tables_extra), assumptions=['64-bit collisions are outside the property'])
 
 
 def check_C07(ctx):
@@ -231,7 +243,7 @@ def check_C07(ctx):
     return play_family(ctx, 'check/mate/stalemate/draw predicates', state_fields(f), state_fields(f), SZ,
                        'theorems in Props/C07.lean + three-way differential on the eight predicates after every op; the spec counts earlier '
                        'positions of the game equal in (placement, side, rights, ep)',
-                       assumptions=['no 64-bit key collision inside one game', 'clock < 256', 'game length < MAX_PLIES'])
+                       assumptions=['no 64-bit key collision inside one game', 'clock < 65535', 'game length < MAX_PLIES'])
 
 
 def check_C15(ctx):
@@ -245,7 +257,7 @@ def check_C16(ctx):
                        V.proj_any(moves_fields(['uci', 'code', 'pu'], ('moves',)), state_fields(['fen', 'ffen', 'fkey', 'fpkey', 'key', 'pkey'])),
                        V.proj_any(moves_fields(['uci', 'code', 'pu'], ('moves',)), state_fields(['fen', 'ffen', 'fkey', 'fpkey', 'key', 'pkey'])), SZ_MOVES,
                        'theorems in Props/C16.lean (encodings exhaustively by decide) + differential on uci text, packed code, parse_uci(uci(m)) = m, '
-                       'and FEN -> Position -> FEN/keys round trip on every position visited', assumptions=['1 <= ply (FEN full-move number >= 1)'])
+                       'and FEN -> Position -> FEN/keys round trip on every position visited', extra=uci_glue_extra('C16'), assumptions=['1 <= ply (FEN full-move number >= 1)'])
 
 
 def check_C17(ctx):
@@ -742,6 +754,7 @@ def check_C20(ctx):
         why, v = bad
         V.report_violation(ctx, 'time allocation: ' + why, f'time {v[0]} {v[1]} {v[2]} {v[3]} 0\n# {why}\n', True, ident=why)
     hunt_if_needed(ctx, ok, 'time allocation', lambda: None)
+    uci_glue_extra('C20')(ctx)
     return V.finish(ctx, 'proof', thm('C20'),
                     'C20_bounds and C20_monotone are proved for every FloatOps satisfying FloatFacts (hypotheses, not axioms), for all integer inputs; the model with '
                     'IEEE doubles agrees with the C++ on every sampled input and the property is evaluated directly on the C++ outputs', checker_cmd('C20'))
@@ -930,6 +943,7 @@ def check_C05(ctx):
         ctx.count('go_with_' + k, sum(1 for r in runs if k in r['go']))
     ctx.count('no_iteration_completed', sum(1 for r in runs if r['acc'].get('done') == '[]'))
     hunt_if_needed(ctx, ok, 'go -> bestmove', lambda: None)
+    uci_glue_extra('C05')(ctx)
     return V.finish(ctx, 'proof', thm('C05'),
                     'theorems over the trace automaton (Props/C05.lean): every accepted trace ends in exactly one BESTMOVE naming a root move and every reported pv is a legal line; '
                     'tie = every hooked search run is accepted by the automaton (a rejected trace is a broken correspondence) and the printed bestmove/pv are checked by the rules spec',
@@ -1145,6 +1159,7 @@ def check_C09(ctx):
     ctx.count('deep_depth_runs', sum(1 for r in runs if any(f'depth {d}' in r['go'] for d in (39, 40, 41, 60, 1000, 2147483647))))
     ctx.count('searchmoves_runs', sum(1 for r in runs if 'searchmoves' in r['go']))
     hunt_if_needed(ctx, ok, 'search limits', lambda: None)
+    uci_glue_extra('C09')(ctx)
     return V.finish(ctx, 'proof', thm('C09'),
                     'theorems over the iteration loop of the trace automaton (Props/C09.lean): iteration depths are 1..k consecutively, bestmove follows the last iteration, the root list is the '
                     'searchmoves list and BEST_SET only takes moves from it; C++ tie by trace acceptance + direct check of the printed info/bestmove lines', checker_cmd('C09'))
@@ -1189,6 +1204,7 @@ def check_C10(ctx):
     V.three_way(ctx, [t for t in texts if 'a7a8' in t or 'R6R' in t], lambda l, s: l if l.startswith(('fen=', 'moves ', 'gen ')) else None, 'boundary positions',
                 spec_proj=lambda l, s: None)
     hunt_if_needed(ctx, ok, 'memory safety', lambda: None)
+    uci_glue_extra('C10')(ctx)
     return V.finish(ctx, 'proof', thm('C10'),
                     'PARTIAL by nature: proved in Lean are the index bounds of the modelled tables (Props/C10.lean: move-list length bound, MoveInfo field widths, history trimming keeps the counter below '
                     'MAX_PLIES, iteration depth below the per-iteration array capacity, pv/stack indices in an accepted trace); memory safety as such is explored with sanitizers on boundary sessions',
